@@ -301,6 +301,8 @@ def show(t, depth=0):
         return "{" + ", ".join(f"{show(k)}: {show(v)}" for k, v in t[1]) + "}"
     if tag == "phi":
         return "phi{" + " | ".join(sorted(show(x) for x in t[1])) + "}"
+    if tag == "gphi":
+        return "gphi{" + " | ".join(sorted(("&".join(show(l) for l in k) + " -> " + show(v)) for k, v in t[1])) + "}"
     if tag == "idx":
         return f"<{t[2]}@{t[1]}>"
     if tag == "star":
@@ -334,6 +336,9 @@ class TermBuilder:
         self._call_stack = _stack
         self.bindings = bindings or {}  # param name -> term (for inlining)
         self._parent_builder = None
+        self.guarded = False
+        self._pcs = None
+        self._pc_busy = False
 
     # --------------------------------------------------------------- helpers
     def _node(self, at):
@@ -365,7 +370,37 @@ class TermBuilder:
         c = self._counter(ident, defs)
         if c is not None:
             return c
+        if self.guarded and len(defs) > 1:
+            g = self._guarded(defs)
+            if g is not None:
+                return g
         return phi(self.def_term(d) for d in defs)
+
+    def _guarded(self, defs):
+        """('gphi', frozenset{(literals, term)}): alternatives of a multiply-defined name keyed by the path
+        condition of the defining statement (common literals removed), so that correlated choices
+        (x_idx/y_idx under swap_axis) stay distinguishable."""
+        if self._pc_busy or any(d.kind not in ("assign", "unpack") for d in defs):
+            return None
+        from .guards import PathConditions
+        if self._pcs is None:
+            self._pc_busy = True
+            try:
+                self._pcs = PathConditions(self.fn, self)
+            finally:
+                self._pc_busy = False
+        pcs = [tuple(self._pcs.of(d.stmt)) for d in defs]
+        common = set(pcs[0])
+        for pc in pcs[1:]:
+            common &= set(pc)
+        keyed = [tuple(l for l in pc if l not in common) for pc in pcs]
+        empty = [i for i, k in enumerate(keyed) if not k]
+        if len(empty) == 1 and all(len(k) == 1 for i, k in enumerate(keyed) if i != empty[0]):
+            # one unconditional definition overridden inside if-branches: it survives where none of them ran
+            keyed[empty[0]] = tuple(neg_test(k[0]) for i, k in enumerate(keyed) if i != empty[0])
+        if any(not k for k in keyed) or len(set(keyed)) != len(keyed):
+            return None
+        return ("gphi", frozenset((k, self.def_term(d)) for k, d in zip(keyed, defs)))
 
     def _counter(self, ident, defs):
         if len(defs) != 2:
@@ -838,8 +873,16 @@ def neg_test(t):
 _builders = {}
 
 
-def builder(prog, fn, self_cls=None, inline=True):
-    key = (id(prog), fn.qualname, self_cls.qualname if self_cls else None, inline)
+def builder(prog, fn, self_cls=None, inline=True, guarded=False):
+    key = (id(prog), fn.qualname, self_cls.qualname if self_cls else None, inline, guarded)
     if key not in _builders:
         _builders[key] = TermBuilder(prog, fn, self_cls, inline)
+        _builders[key].guarded = guarded
     return _builders[key]
+
+
+def galts(t):
+    """{literals: term} of a guarded phi; {(): t} otherwise."""
+    if t[0] == "gphi":
+        return {k: v for k, v in t[1]}
+    return {(): t}
